@@ -762,6 +762,18 @@ func (s *sim) checkAccessors(tb *hclwrite.Body, mb *mBody, path string) {
 		if !(len(labels) == 0 && len(m.labels) == 0) && !reflect.DeepEqual(labels, m.labels) {
 			fail("accessor_mismatch", "%s: block %d (%s) Labels() = %q, model %q", path, i, ty, labels, m.labels)
 		}
+		// the returned slice is the caller's (e.g. to derive a sibling's
+		// labels from it): writing into it must not reach the block
+		if len(labels) > 0 {
+			for k := range labels {
+				labels[k] = "callers_own"
+			}
+			var again []string
+			s.call("Block.Labels", func() { again = tbl[i].Labels() })
+			if !reflect.DeepEqual(again, m.labels) {
+				fail("accessor_mismatch", "%s: block %d (%s) Labels() = %q after the caller wrote into the slice an earlier call returned, model %q", path, i, ty, again, m.labels)
+			}
+		}
 		// FirstMatchingBlock must return the first block with this type and labels
 		first := i
 		for k := 0; k < i; k++ {
@@ -778,6 +790,13 @@ func (s *sim) checkAccessors(tb *hclwrite.Body, mb *mBody, path string) {
 		var nb *hclwrite.Body
 		s.call("Block.Body", func() { nb = tbl[i].Body() })
 		s.checkAccessors(nb, m.body, fmt.Sprintf("%s/%s[%d]", path, m.typ, i))
+	}
+	// the containers the accessors returned are the caller's too
+	for k := range tbl {
+		tbl[k] = nil
+	}
+	for n := range attrs {
+		delete(attrs, n)
 	}
 }
 
